@@ -290,9 +290,12 @@ class IntWP:
 
     def assign(self, fr, target, value, path):
         """target: ('var', frame, id) | ('field', frame, id, fname) ; merges under the return guard"""
-        g = fr.returned
         kind = target[0]
         tf = target[1]
+        # a write after an earlier `return` of this frame must not happen.  For a variable of another frame (reference parameter) the
+        # old value is kept under `returned`; the frame's own variables are never observed once it has returned (the returned value was
+        # captured at the return statement, later statements and obligations are guarded by `not returned`), so no ite is needed there
+        g = fr.returned if tf is not fr else 'false'
         if kind == 'var':
             old = tf.vars.get(target[2])
             if isinstance(old, Ref):
@@ -1000,9 +1003,10 @@ SOLVERS = [
 
 # second round for obligations the first round leaves undecided: non-linear queries are sensitive to the solver's random choices, so the
 # same query is handed to a portfolio of seeds/strategies (any `unsat`/`sat` answer is an answer about the same formula)
-RETRY_SOLVERS = [('z3-new/seed%d' % k, ['z3-new', '-smt2', 'smt.random_seed=%d' % k, 'sat.random_seed=%d' % k]) for k in (1, 2, 3, 4, 5)] + \
-    [('z3/seed%d' % k, ['z3', '-smt2', 'smt.random_seed=%d' % k]) for k in (1, 2)] + \
-    [('cvc5/tplanes-interleave', ['cvc5', '--lang', 'smt2', '--produce-models', '--nl-ext-tplanes', '--nl-ext-tplanes-interleave'])]
+RETRY_SOLVERS = [('z3-new/seed%d' % k, ['z3-new', '-smt2', 'smt.random_seed=%d' % k, 'sat.random_seed=%d' % k]) for k in (1, 2, 3, 4, 5, 6, 7)] + \
+    [('z3/seed%d' % k, ['z3', '-smt2', 'smt.random_seed=%d' % k]) for k in (1, 2, 3)] + \
+    [('cvc5/tplanes-interleave', ['cvc5', '--lang', 'smt2', '--produce-models', '--nl-ext-tplanes', '--nl-ext-tplanes-interleave']),
+     ('cvc5/seed7', ['cvc5', '--lang', 'smt2', '--produce-models', '--nl-ext-tplanes', '--seed=7'])]
 
 
 def solve_query(text, timeout, workdir, tag, solvers=None):
